@@ -262,6 +262,8 @@ func (u *Unit) frameCheck(st *State, pos token.Pos) {
 						}
 					}
 					continue
+				case "chanLen", "wg":
+					continue
 				case "calls":
 					f := oev.expr(call.Args[0])
 					t := get("G:calls")
